@@ -10,7 +10,6 @@ import (
 	"time"
 
 	"github.com/couchbase/sync_gateway/base"
-	"verif/vlib"
 )
 
 // Retry-chain scenarios (shared by C05, C07, C11): one writer W pushes a revision with ancestry;
@@ -190,7 +189,7 @@ func vrcRun(t *testing.T, e *vrcEnv, K int, final string, batchGrowth bool) *vrc
 // Returns the numbers that are unaccounted for.
 func vrcLedger(e *vrcEnv, res *vrcResult) (missing []uint64, carried, listed map[uint64][]string, published map[uint64]int) {
 	mk := e.db.MetadataKeys
-	carried, listed, _ = c07CommittedFromLog(res.Log, mk)
+	carried, listed, _ = verifCommittedFromLog(res.Log, mk)
 	published = map[uint64]int{}
 	for _, p := range verifUnusedFromLog(res.Log, mk) {
 		if p.To >= p.From && p.To-p.From < 100000 {
@@ -243,56 +242,6 @@ func (r *vrcResult) witness() map[string]any {
 	return w
 }
 
-// TestVerif_C07_RetryChain: conservation of sequence numbers over every (K, outcome) scenario.
-func TestVerif_C07_RetryChain(t *testing.T) {
-	run := vlib.Start(t, "C07", "retry-chain")
-	defer run.Finish()
-	e := vrcNewEnv(t)
-	defer e.Close()
-	maxK := run.N(3, 5)
-	for _, batch := range []bool{false, true} {
-		for K := 0; K <= maxK; K++ {
-			for _, final := range vrcFinals {
-				res := vrcRun(t, e, K, final, batch)
-				run.Eval()
-				missing, _, listed, _ := vrcLedger(e, res)
-				sig := fmt.Sprintf("retries=%s|outcome=%s", vrcKClass(K), final)
-				if len(missing) > 0 {
-					w := res.witness()
-					w["missing"] = missing
-					run.Violation("conservation", "C07|retry-chain|reserved-number-neither-stored-nor-published|"+sig,
-						fmt.Sprintf("writer lost its CAS %d time(s), final outcome %q: numbers %v in (%d,%d] are on no stored version, in no unused_sequences list and not published unused", K, final, missing, res.Counter0, res.Counter), w)
-				}
-				reached, stuck, inconc := vrcWaitFeed(e, res, missing)
-				for _, m := range missing {
-					_ = e.db.sequences.releaseSequence(e.ctx, m) // keep the shared change cache moving for the next scenario
-				}
-				switch {
-				case inconc:
-					run.Inconclusive("change cache did not reach the counter within the watchdog")
-					cr, ls, pb := func() (map[uint64][]string, map[uint64][]string, map[uint64]int) { _, a, b, c := vrcLedger(e, res); return a, b, c }()
-					run.Note("K=%d final=%s batch=%v stuck at %d counter=(%d,%d] carried=%v listed=%v published=%v events=%v", K, final, batch, stuck, res.Counter0, res.Counter, cr[stuck], ls[stuck], pb[stuck], res.Events)
-				case !reached:
-					run.Violation("feed-progress", "C07|retry-chain|change-feed-waits-for-number-that-never-arrives|"+sig,
-						fmt.Sprintf("change cache still expects sequence %d after quiescence", stuck), res.witness())
-				default:
-					run.Count("scenarios_feed_reached_counter", 1)
-				}
-				run.Count("numbers_reserved", int(res.Counter-res.Counter0))
-				run.Count("numbers_listed_unused_in_docs", len(listed))
-				run.Count("writer_attempts", res.Attempts)
-				if res.Attempts >= K+1 {
-					run.Nontrivial(fmt.Sprintf("%v/%d/%s", batch, K, final))
-				}
-				run.Distinct("writer_outcomes", final+"/"+vrcErrClass(res.WriterErr))
-				if K == 2 && !batch {
-					run.Sample(res.witness())
-				}
-			}
-		}
-	}
-}
-
 func vrcKClass(k int) string {
 	switch {
 	case k == 0:
@@ -307,7 +256,7 @@ func vrcErrClass(err error) string {
 	if err == nil {
 		return "ok"
 	}
-	return c07ErrClass(err)
+	return verifErrClass(err)
 }
 
 var _ = strings.Contains
